@@ -3,7 +3,7 @@ SPEC = dict(
     bin="c28",
     cases_quick=1600,
     cases_thorough=36000,
-    level="partial",
+    level="proof",
     technique="Coq theorems over a Gallina model of decode_full_report on byte lists (every slice expression is checked: out-of-range = None) and of the decode field mapping + PriceFeedPrice::from_chainlink_report + differential correspondence with the Rust functions (blob reported as pointer offset and length; reports built with the third-party encoder, decoded and converted by the real code) + panic probes of the unmodelled third-party decoders under catch_unwind",
     text="decode_full_report is proved total on all byte strings (no slice index out of range, no usize overflow), to fail exactly when the payload is shorter than 128 bytes or the described length word / blob does not lie inside it, and otherwise to return exactly payload[off+32 .. off+32+len] with off / len the big-endian low 8 bytes of the offset / length words (= the ABI-described slice when the high 24 bytes are zero; known class 1 otherwise).  from_chainlink_report is proved total, to reject negative or misordered bid / price / ask, to preserve bid <= price <= ask, and to divide all three by the same 10^k with k = find_divisor_decimals(ask) <= 18 so that they fit u128.",
     level_note="PARTIAL on the clause 'decoding never panics on any byte string': the third-party ReportDataVx::decode (chainlink-data-streams-report 1.2.1) and snap decompression are not modelled; their panic-freedom is only probed (random, mutated, truncated and compressed inputs under catch_unwind, tag probe*/...).  Trusted: Coq kernel + vm_compute; hand-written model tied to the code on generated inputs (offsets / lengths at every guard +-1, u64 overflow of offset + 32 and of length_end + length, non-zero high bytes, asks around (2^128-1)*10^i and 2^128*10^i, negative and misordered values, last-update stamps around +-1 s).",
